@@ -187,5 +187,22 @@ Definition mon_C03x (cs : amap pconf) (o : obs) (te : tid * event) : bool :=
   end.
 Definition holds_C03x cs evs := holds cs mon_C03x evs.
 Definition bad_C03x := bad_mon holds_C03x.
-(* the offending instance may have any name: whole-history windows *)
-Definition badwn_C03x := badw_mon mon_C03x.
+(* the offending instance may have any name: whole-history windows.  The zombie window (F38: the goroutine of an
+   instance that was ended while pending lives on and may still launch) explains a command alive at the end of a
+   shutdown only if that command belongs to such a zombie - an instance whose onProcessEnd had been entered before it
+   became alive; a NORMAL instance alive and unknown to the shutdown is not what F38 describes. *)
+Definition zombie_alive (x : oinst) : bool :=
+  o_alive x && (o_ended x || match o_endst x with Some _ => true | None => false end).
+Fixpoint mon_run_w03x (cs : amap pconf) (o : obs) (evs : list (tid * event)) : option nat :=
+  match evs with
+  | [] => None
+  | e :: r =>
+      if mon_C03x cs o e then mon_run_w03x cs (obs_step cs o e) r
+      else
+        let only_zombies := forallb (fun p => negb (o_alive (snd p)) || zombie_alive (snd p)) (oi o) in
+        let w := [w_zombie o && only_zombies; w_sdlag o; w_commit o; w_late o; w_sdspawn o; w_dup o; w_stale o] in
+        Some (fold_left (fun acc (b : bool) => 2 * acc + (if b then 1 else 0)) w 0)
+  end.
+Definition badwn_C03x (ts : list trace) : list nat :=
+  flat_map (fun t => match mon_run_w03x (t_confs t) (obs0 (t_confs t)) (t_evs t) with
+                     | Some w => [w] | None => [] end) ts.
